@@ -187,22 +187,35 @@ def handleCal (toks : List String) : Option String :=
         | none => Out.err .assert
         | some g =>
           pure s!"{g.era.getD "-"} {optStr toString g.eraYear} {g.year} {g.month} {g.monthCode.render} {g.daysInMonth} {g.daysInYear} {g.monthsInYear} {if g.inLeapYear then 1 else 0}"))
+  | ["cal_withid_spec", _, y, m, d, _] => do
+    let y ← int? y; let m ← int? m; let d ← int? d
+    some (renderOut (do let iso ← isoOf y m d; pure iso.render))
   | ["cal_withid_spec", _, y, m, d] => do
     -- the law, for every calendar: a date updated with its own day is the same date
     let y ← int? y; let m ← int? m; let d ← int? d
     some (renderOut (do let iso ← isoOf y m d; pure iso.render))
-  | ["cal_withid", cal, y, m, d] => do
+  | "cal_withid" :: cal :: y :: m :: d :: rest => do
     let cal ← calId? cal; let y ← int? y; let m ← int? m; let d ← int? d
+    let which := (rest.head?.getD "d").toList
+    if rest.length > 1 then none else
     some (match isoOf y m d with
       | .err k => "err " ++ k.name
       | .panic => "panic"
       | .ok iso =>
         if cal = .iso8601 then
-          (plainDateWith iso ⟨none, none, none, some iso.day, false, none⟩ (some .reject)).render IsoDate.render
+          let p : PartialDate := ⟨if which.contains 'y' || which.contains 'e' then some iso.year else none, none,
+            if which.contains 'c' then some ⟨iso.month.toNat, false⟩ else none,
+            if which.contains 'd' then some iso.day else none, false, none⟩
+          (plainDateWith iso p (some .reject)).render IsoDate.render
         else match fields cal iso with
           | some f =>
+            let byEra := which.contains 'e' && f.era.isSome && f.eraYear.isSome
+            let p : CalPartial := ⟨if byEra then f.era else none, if byEra then f.eraYear else none,
+              if which.contains 'y' || (which.contains 'e' && !byEra) then some f.year else none, none,
+              if which.contains 'c' then some f.monthCode else none,
+              if which.contains 'd' then some f.day else none⟩
             -- a failure is marked with the circumstance of the date, as the harness does
-            match plainDateWithCal cal f ⟨none, none, none, none, none, some f.day⟩ (some .reject) with
+            match plainDateWithCal cal f p (some .reject) with
             | .ok r => "ok " ++ r.render
             | .err k => "err " ++ k.name ++ (if f.year ≤ 0 then "@y<=0" else "")
             | .panic => "panic"
